@@ -4,4 +4,5 @@ P="$1"; shift
 git -C /repo apply "$P" || exit 3
 "$@"; rc=$?
 git -C /repo checkout -- . 
+git -C /verif checkout -q -- evidence
 exit $rc
